@@ -80,12 +80,32 @@ func Unify(x, y types.Type, unifier map[*types.TypeParam]types.Type) bool {
 		return b
 	}
 
+	// occurs reports whether b occurs in t, following the bindings of the type
+	// parameters of t.
+	var occurs func(b *types.Type, t types.Type, seen map[*types.Type]bool) bool
+	occurs = func(b *types.Type, t types.Type, seen map[*types.Type]bool) bool {
+		for tp := range typeParams(t) {
+			tb := bindings[tp]
+			if tb == nil {
+				continue
+			}
+			if tb == b {
+				return true
+			}
+			if *tb != nil && !seen[tb] {
+				seen[tb] = true
+				if occurs(b, *tb, seen) {
+					return true
+				}
+			}
+		}
+		return false
+	}
+
 	// bind sets b to t if b does not occur in t.
 	bind := func(b *types.Type, t types.Type) bool {
-		for tp := range typeParams(t) {
-			if b == bindings[tp] {
-				return false // failed "occurs" check
-			}
+		if occurs(b, t, map[*types.Type]bool{}) {
+			return false // failed "occurs" check
 		}
 		*b = t
 		return true
@@ -95,12 +115,13 @@ func Unify(x, y types.Type, unifier map[*types.TypeParam]types.Type) bool {
 	depth := 0
 	var uni func(x, y types.Type) bool
 	uni = func(x, y types.Type) bool {
-		// Panic if recursion gets too deep, to detect bugs before
-		// overflowing the stack.
+		// Give up if recursion gets too deep. Valid programs can contain
+		// types that are nested this deeply; treat them as not unifying
+		// instead of crashing.
 		depth++
 		defer func() { depth-- }()
-		if depth > 100 {
-			panic("unify: max depth exceeded")
+		if depth > 1000 {
+			return false
 		}
 
 		x = types.Unalias(x)
